@@ -171,6 +171,83 @@ std::string observe(D& data, std::size_t expectedElements, std::size_t maxBatch,
 	return os.str();
 }
 
+// unlabeled data
+template<class D>
+std::string observeUnlabeled(D& data, std::size_t expectedElements, std::size_t maxBatch, bool safetyOnly){
+	Obs o;
+	shark::Shape const& sh = data.shape();
+	bool hasShape = sh.size() == 1;
+	if(data.numberOfElements() == 0) hasShape = true;
+	showInputs(data, o, sh.size() == 1 ? sh[0] : 0, hasShape);
+	if(o.elements != expectedElements) o.oracle.push_back("element-count-differs-from-record-count");
+	if(data.numberOfElements() != o.elements) o.oracle.push_back("numberOfElements-inconsistent");
+	if(maxBatch) for(std::size_t b = 0; b != data.numberOfBatches(); ++b)
+		if(data.batch(b).size1() > maxBatch) o.oracle.push_back("batch-larger-than-requested");
+	std::ostringstream os;
+	if(safetyOnly) os << "safety-only";
+	else os << "ok shape=" << showShape(sh) << " lshape=- batches=[" << o.batches.str() << "] labels=- rows=[" << o.rows.str() << "]";
+	for(auto const& t: o.oracle) os << " !oracle " << t;
+	return os.str();
+}
+
+// records of a CSV file according to the format: lines (ended by \r\n, \n or \r) that hold
+// something else than blanks once a comment is removed.  In Shark's dialect a comment
+// extends through its line break (skipper `comment >> *(char_ - eol) >> (eol|eoi)`), so a
+// comment behind data joins that line with the next one.
+static std::size_t csvRecordCount(std::string const& bytes, char comment){
+	std::size_t n = 0; bool content = false, inComment = false;
+	for(std::size_t i = 0; i <= bytes.size(); ++i){
+		bool end = i == bytes.size();
+		char c = end ? '\n' : bytes[i];
+		if(c == '\n' || c == '\r'){
+			if(inComment && !end){
+				inComment = false;
+				if(c == '\r' && i + 1 < bytes.size() && bytes[i+1] == '\n') ++i;
+				continue;             // the comment swallowed the line break
+			}
+			if(content) ++n; content = false; inComment = false; continue;
+		}
+		if(inComment) continue;
+		if(c == comment){ inComment = true; continue; }
+		if(c != ' ' && c != '\t' && c != '\v' && c != '\f') content = true;
+	}
+	return n;
+}
+
+template<class F>
+std::string guarded(F f, bool safetyOnly){
+	try{
+		g_limit = true;
+		f();
+		g_limit = false;
+	}catch(shark::Exception const&){ g_limit = false; return safetyOnly ? "safety-only" : "shark-exception"; }
+	catch(std::bad_alloc const&){ g_limit = false; return safetyOnly ? "safety-only" : "std-exception bad_alloc"; }
+	catch(std::exception const& e){ g_limit = false; return std::string("std-exception ") + e.what() + " !oracle foreign-exception"; }
+	return "";
+}
+
+template<class D>
+std::string runCsvU(std::string const& bytes, char sep, char comment, std::size_t maxB, bool safetyOnly){
+	D data;
+	std::string e = guarded([&]{ shark::csvStringToData(data, bytes, sep, comment, maxB); }, safetyOnly);
+	if(!e.empty()) return e;
+	return observeUnlabeled(data, csvRecordCount(bytes, comment), maxB, safetyOnly);
+}
+template<class D>
+std::string runCsvC(std::string const& bytes, shark::LabelPosition lp, char sep, char comment, std::size_t maxB, bool safetyOnly){
+	D data;
+	std::string e = guarded([&]{ shark::csvStringToData(data, bytes, lp, sep, comment, maxB); }, safetyOnly);
+	if(!e.empty()) return e;
+	return observe(data, csvRecordCount(bytes, comment), maxB, safetyOnly);
+}
+template<class D>
+std::string runCsvR(std::string const& bytes, shark::LabelPosition lp, std::size_t nout, char sep, char comment, std::size_t maxB, bool safetyOnly){
+	D data;
+	std::string e = guarded([&]{ shark::csvStringToData(data, bytes, lp, nout, sep, comment, maxB); }, safetyOnly);
+	if(!e.empty()) return e;
+	return observe(data, csvRecordCount(bytes, comment), maxB, safetyOnly);
+}
+
 template<class D>
 std::string runSvm(std::string const& bytes, unsigned int dims, std::size_t bs, bool safetyOnly){
 	D data;
@@ -207,6 +284,20 @@ int main(){
 			if( sparse && cls &&  f32) out = runSvm<LabeledData<CompressedFloatVector, unsigned int> >(bytes, dims, bs, safety);
 			if( sparse && !cls && !f32) out = runSvm<LabeledData<CompressedRealVector, RealVector> >(bytes, dims, bs, safety);
 			if( sparse && !cls &&  f32) out = runSvm<LabeledData<CompressedFloatVector, FloatVector> >(bytes, dims, bs, safety);
+		}
+		if(t[0] == "csv" && t.size() == 10){
+			bool f32 = t[2] == "f32", safety = t[8] == "S";
+			LabelPosition lp = t[3] == "F" ? FIRST_COLUMN : LAST_COLUMN;
+			std::size_t nout = std::stoull(t[4]);
+			char sep = char(std::stoul(t[5])), comment = char(std::stoul(t[6]));
+			std::size_t maxB = std::stoull(t[7]);
+			std::string bytes = unhex(t[9]);
+			if(t[1] == "u" && !f32) out = runCsvU<Data<RealVector> >(bytes, sep, comment, maxB, safety);
+			if(t[1] == "u" &&  f32) out = runCsvU<Data<FloatVector> >(bytes, sep, comment, maxB, safety);
+			if(t[1] == "c" && !f32) out = runCsvC<LabeledData<RealVector, unsigned int> >(bytes, lp, sep, comment, maxB, safety);
+			if(t[1] == "c" &&  f32) out = runCsvC<LabeledData<FloatVector, unsigned int> >(bytes, lp, sep, comment, maxB, safety);
+			if(t[1] == "r" && !f32) out = runCsvR<LabeledData<RealVector, RealVector> >(bytes, lp, nout, sep, comment, maxB, safety);
+			if(t[1] == "r" &&  f32) out = runCsvR<LabeledData<FloatVector, FloatVector> >(bytes, lp, nout, sep, comment, maxB, safety);
 		}
 		alarm(0);
 		std::cout << out << "\n" << std::flush;
